@@ -12,7 +12,7 @@ BECH32_ASSUME = [
 PROPS = {
     "C01": dict(
         pkg="c01",
-        quick=T(8, 1, 900),
+        quick=T(8, 2, 900),
         thorough=T(16, 40, 3400, fuzz=[dict(name="FuzzVerify", count=150000)]),
         assumptions=[
             "harness/ref/ed: big-integer edwards25519 model written from RFC 8032 5.1 and ZIP-215 (self-checked: base point encoding, L*B = O, the 8 published small-order encodings, RFC 8032 test vector 1) evaluates the statement's predicate literally",
@@ -22,7 +22,7 @@ PROPS = {
     ),
     "C02": dict(
         pkg="c02",
-        quick=T(8, 1, 900),
+        quick=T(8, 2, 900),
         thorough=T(16, 40, 3400),
         assumptions=[
             "harness/ref/slip10 (own SLIP-0010 model; reproduces every official SLIP-0010 vector incl. the retry vectors, pinned copies in /verif/data/slip10) over harness/ref/secp (affine big-integer secp256k1/P-256) and crypto/ed25519 for the ed25519 public key",
@@ -63,7 +63,7 @@ PROPS = {
     ),
     "C12": dict(
         pkg="c12",
-        quick=T(8, 1, 900),
+        quick=T(8, 1.5, 900),
         thorough=T(16, 40, 3400),
         assumptions=[
             "harness/ref/pow: difficulty floor(3^243/h) and score on math/big over the scalar Curl reference",
@@ -75,7 +75,7 @@ PROPS = {
     "C13": dict(
         pkg="c13",
         race=True,
-        quick=T(4, 1, 1200, shrinktime="60s"),
+        quick=T(4, 2, 1200, shrinktime="60s"),
         thorough=T(8, 100, 3400, shrinktime="120s"),
         assumptions=[
             "the Go scheduler is not under the harness's control: interleavings are sampled by varying GOMAXPROCS, worker counts and cancellation instants; the race detector reports races on executed accesses regardless of the observed order",
@@ -111,14 +111,14 @@ PROPS = {
     ),
     "C17": dict(
         pkg="c17",
-        quick=T(8, 1, 900),
+        quick=T(8, 2, 900),
         thorough=T(16, 50, 3400),
         assumptions=["harness/ref/secp: affine secp256k1 with textbook case analysis (self-checked: G on curve, n*G = O, (n-1)G = -G, published 2G and 3G)",
                      "the internal copy of the curve is reached through elliptic.Secp256k1() (its dynamic type promotes the embedded elliptic.Curve methods)"],
     ),
     "C18": dict(
         pkg="c18",
-        quick=T(8, 1, 900),
+        quick=T(8, 2, 900),
         thorough=T(16, 40, 3400, fuzz=[dict(name="FuzzVerify", count=80000)]),
         assumptions=[
             "harness/ref/vrf: own RFC 9381 ECVRF-EDWARDS25519-SHA512-TAI on harness/ref/ed (reproduces RFC 9381 appendix B.3 examples 16-18)",
@@ -154,7 +154,7 @@ PROPS = {
     ),
     "C08": dict(
         pkg="c08",
-        quick=T(8, 1, 900),
+        quick=T(8, 2, 900),
         thorough=T(16, 40, 3400),
         assumptions=["harness/ref/secp (affine big-integer arithmetic, self-checked: n*G = O, published 2G/3G) as third opinion for the shifted keys"],
     ),
